@@ -421,7 +421,7 @@ func runC12(c *Ctx) {
 	r := c.R
 	r.Assume("EXECUTE ids are prepared through the proxy first, so it knows which ids are SELECTs; the compressed header bit may differ after a rewrite (the body is re-encoded), bodies are compared uncompressed")
 	r.Require("frames_compared", "rewrite=true", "rewrite=false", "sentinels_ok", "fresh_prepared_select_executes")
-	n := c.Pick(24, 160)
+	n := c.Pick(24, 16000)
 	for i := 0; i < n; i++ {
 		if c.Replay != nil && c.Replay["kind"] == "c12" {
 			if i != int(c.Replay["idx"].(float64)) {
